@@ -323,7 +323,7 @@ Definition spec_event (strict : bool) (cls depth : Z) (e : event) (ss : sstate) 
                Some (mkss (s_vals ss ++ [(nm, 0)]) (s_within ss) ((nm, [SNum RArabic nm]) :: s_the ss)
                           ((nm, Some nm) :: s_envs ss) (s_lists ss), [])
            | None, Some w, false =>
-               if mem w (map fst (s_vals ss)) && negb (is_nil w) && negb (mem w enum_names) && negb (name_eqb nm (the_str ++ w))
+               if mem w (map fst (s_vals ss)) && negb (is_nil w) && forallb is_letter w && negb (mem w enum_names) && negb (name_eqb nm (the_str ++ w))
                then Some (mkss (s_vals ss ++ [(nm, 0)]) ((nm, w) :: s_within ss) ((nm, chain w nm) :: s_the ss)
                                ((nm, Some nm) :: s_envs ss) (s_lists ss), [])
                else None
